@@ -107,14 +107,15 @@ Definition send_key (cfg : config) (st : cstate) (level : Z) (key : bytes) (now 
    1: algo(seed)   2: algo(seed, params)   3: algo(level, seed, params)   4: callable object without __code__
    (gets all three)   5: algo(seed, params) whose body has a local variable called level   6: algo(seed) whose body has locals
    called level and params (only declared parameters count)   7: algo(seed, params) that fails: it raises the application's own
-   exception (algo_fails): the call ends with that error and nothing more is sent.
+   exception (algo_fails): the call ends with that error and nothing more is sent   8: algo(seed, params) that is a functools.wraps
+   decorator around a function of another signature (the signature of the callable that is configured counts).
    The executable instance computes  reversed(seed) ++ extras. *)
 Definition algo_fails (cfg : config) : bool := algo cfg =? 7.
 Definition algo_run (cfg : config) (seed : bytes) (level : Z) : bytes * ev :=
   let prm := algo_prm cfg in
   let pb := if prm <? 0 then 0 else prm mod 256 in
   if (algo cfg =? 1) || (algo cfg =? 6) then (rev seed, EvALGO seed (-1) (-1))
-  else if (algo cfg =? 2) || (algo cfg =? 5) || (algo cfg =? 7) then (rev seed ++ [pb], EvALGO seed (-1) prm)
+  else if (algo cfg =? 2) || (algo cfg =? 5) || (algo cfg =? 7) || (algo cfg =? 8) then (rev seed ++ [pb], EvALGO seed (-1) prm)
   else (rev seed ++ [level mod 256; pb], EvALGO seed level prm).
 
 Definition seed_of (sd : sdata) : bytes := match sd with _ :: _ :: _ :: seed => seed | _ => [] end.
